@@ -99,6 +99,7 @@ type Client struct {
 	closeEnds  bool
 	doneClosed bool
 	tid        int // logical thread the connection belongs to (-1: unknown); see goReg
+	adopted    bool
 }
 
 // Waiting reports whether the server is blocked reading this connection (call at quiescence).
@@ -135,7 +136,8 @@ func NewClient() *Client {
 }
 
 func (c *Client) Read(p []byte) (int, error) {
-	if r := curGoReg; r != nil {
+	if r := curGoReg; r != nil && !c.adopted {
+		c.adopted = true // the goroutine serving a connection does not change
 		r.adopt(c.tid)
 	}
 	c.Reads++
